@@ -1,0 +1,5 @@
+//go:build !verif
+
+package statecache
+
+func vyield(point, key, block string) {}
